@@ -6,8 +6,10 @@ import (
 	"go/constant"
 	"go/token"
 	"go/types"
+	"sort"
 	"strings"
 
+	"golang.org/x/tools/go/packages"
 	"golang.org/x/tools/go/ssa"
 )
 
@@ -68,10 +70,85 @@ func extractLogTables(c *Ctx, rule string) *logTables {
 			}
 		}
 	}
+	// table-driven form: `return names[l]` over a package-level array/map literal keyed by the constants
+	for _, tab := range keyedTablesUsed(c, p, fd.Body) {
+		for k, e := range tab.entries {
+			if v := constVal(p, e); v != nil && v.Kind() == constant.String {
+				if _, dup := t.stringOf[k]; !dup {
+					t.stringOf[k] = constant.StringVal(v)
+				}
+			}
+		}
+	}
 	p, fd = c.MustFuncDecl(rule, pkgLedger, "LogTypeFromString")
 	if fd == nil {
 		return nil
 	}
+	// table-driven form: `for k, name := range names { if name == s { return LogType(k) } }`
+	ast.Inspect(fd.Body, func(n ast.Node) bool {
+		rs, ok := n.(*ast.RangeStmt)
+		if !ok {
+			return true
+		}
+		tabs := keyedTablesUsed(c, p, &ast.BlockStmt{List: []ast.Stmt{&ast.ExprStmt{X: rs.X}}})
+		keyID, _ := rs.Key.(*ast.Ident)
+		valID, _ := rs.Value.(*ast.Ident)
+		if len(tabs) != 1 || keyID == nil || valID == nil {
+			return true
+		}
+		keyObj, valObj := p.TypesInfo.Defs[keyID], p.TypesInfo.Defs[valID]
+		matched := false
+		ast.Inspect(rs.Body, func(m ast.Node) bool {
+			ifs, ok := m.(*ast.IfStmt)
+			if !ok {
+				return true
+			}
+			be, ok := ifs.Cond.(*ast.BinaryExpr)
+			if !ok || be.Op != token.EQL {
+				return true
+			}
+			usesVal, usesParam := false, false
+			for _, side := range []ast.Expr{be.X, be.Y} {
+				if id, ok := side.(*ast.Ident); ok {
+					if p.TypesInfo.Uses[id] == valObj {
+						usesVal = true
+					}
+					if v, ok := p.TypesInfo.Uses[id].(*types.Var); ok && fd.Type.Params != nil {
+						for _, fl := range fd.Type.Params.List {
+							for _, nm := range fl.Names {
+								if p.TypesInfo.Defs[nm] == v {
+									usesParam = true
+								}
+							}
+						}
+					}
+				}
+			}
+			if !usesVal || !usesParam {
+				return true
+			}
+			for _, st := range ifs.Body.List {
+				if ret, ok := st.(*ast.ReturnStmt); ok && len(ret.Results) == 1 {
+					e := ret.Results[0]
+					if call, ok := e.(*ast.CallExpr); ok && len(call.Args) == 1 {
+						e = call.Args[0]
+					}
+					if id, ok := e.(*ast.Ident); ok && p.TypesInfo.Uses[id] == keyObj {
+						matched = true
+					}
+				}
+			}
+			return true
+		})
+		if matched {
+			for k, e := range tabs[0].entries {
+				if v := constVal(p, e); v != nil && v.Kind() == constant.String {
+					t.fromString[constant.StringVal(v)] = k
+				}
+			}
+		}
+		return true
+	})
 	for _, sw := range switchesIn(fd.Body) {
 		for _, cl := range clausesOf(sw.Body) {
 			_, obj, ok := firstReturnConst(p, cl.Body, 0)
@@ -106,6 +183,25 @@ func extractLogTables(c *Ctx, rule string) *logTables {
 	var hydrateSwitches []*ast.SwitchStmt
 	for _, b := range bodies {
 		hydrateSwitches = append(hydrateSwitches, switchesIn(b)...)
+	}
+	for _, b := range bodies {
+		for _, tab := range keyedTablesUsed(c, p, b) {
+			for k, e := range tab.entries {
+				var pt types.Type
+				ast.Inspect(e, func(n ast.Node) bool {
+					if cl, ok := n.(*ast.CompositeLit); ok && pt == nil {
+						pt = p.TypesInfo.TypeOf(cl)
+					}
+					return true
+				})
+				if pt != nil {
+					if _, dup := t.hydrate[k]; !dup {
+						t.hydrate[k] = pt
+						t.hydratePos[k] = e.Pos()
+					}
+				}
+			}
+		}
 	}
 	for _, sw := range hydrateSwitches {
 		for _, cl := range clausesOf(sw.Body) {
@@ -354,11 +450,11 @@ func ruleR13d(c *Ctx) {
 					continue
 				}
 				// walk back through time.Time methods that keep the instant
-				src, rounded := clockSource(val, want, 0)
+				src, rounded := clockSource(c, val, want, 0)
 				if src == "" {
 					continue
 				}
-				n++
+				n += strings.Count(src, "+") + 1
 				c.seeFn(fn)
 				c.check(rounded, rule, fnName(fn)+":"+src, ins.Pos(), "value from "+src+" is rounded to DatePrecision before it becomes a ledger.Time",
 					"a ledger.Time is built from "+src+" without Round(DatePrecision): sub-microsecond digits are hashed in memory but lost in the store, so the recomputed hash differs")
@@ -371,9 +467,23 @@ func ruleR13d(c *Ctx) {
 	}
 }
 
+func joinSources(a, b string) string {
+	if a == "" {
+		return b
+	}
+	for _, x := range strings.Split(a, "+") {
+		if x == b {
+			return a
+		}
+	}
+	parts := append(strings.Split(a, "+"), strings.Split(b, "+")...)
+	sort.Strings(parts)
+	return strings.Join(dedupStrings(parts), "+")
+}
+
 // clockSource follows a time.Time value back to time.Now / time.Parse; reports whether a
 // Round/Truncate with the expected precision lies on the way.
-func clockSource(v ssa.Value, precision int64, depth int) (src string, rounded bool) {
+func clockSource(c *Ctx, v ssa.Value, precision int64, depth int) (src string, rounded bool) {
 	if depth > 10 {
 		return "", false
 	}
@@ -391,28 +501,65 @@ func clockSource(v ssa.Value, precision int64, depth int) (src string, rounded b
 		case "time.Now":
 			return name, false
 		case "(time.Time).Round", "(time.Time).Truncate":
-			s, _ := clockSource(x.Call.Args[0], precision, depth+1)
+			s, _ := clockSource(c, x.Call.Args[0], precision, depth+1)
 			if s == "" {
 				return "", false
 			}
 			d, ok := constInt(x.Call.Args[1])
 			return s, ok && d == precision
 		case "(time.Time).UTC", "(time.Time).In", "(time.Time).Local":
-			return clockSource(x.Call.Args[0], precision, depth+1)
+			return clockSource(c, x.Call.Args[0], precision, depth+1)
 		}
 		if strings.HasPrefix(name, "(time.Time).") {
 			return "", false
 		}
+		// a helper of the repository that hands back a time (`roundTime(t)`): what it returns
+		if f := staticCallee(x); f != nil && inRepo(fnPkgPath(origin(f))) && len(f.Blocks) > 0 {
+			src, rounded = "", true
+			for _, b := range f.Blocks {
+				if ret, ok := b.Instrs[len(b.Instrs)-1].(*ssa.Return); ok && len(ret.Results) > 0 {
+					if s, r := clockSource(c, ret.Results[0], precision, depth+1); s != "" {
+						src = joinSources(src, s)
+						rounded = rounded && r
+					}
+				}
+			}
+			if src == "" {
+				return "", false
+			}
+			return src, rounded
+		}
+	case *ssa.Parameter:
+		// a parameter of a helper: what its callers pass
+		fn := x.Parent()
+		idx := paramIndex(x)
+		src, rounded = "", true
+		for _, site := range c.CallersOf(fn) {
+			if site.Parent() == nil || idx < 0 || idx >= len(site.Common().Args) {
+				continue
+			}
+			if strings.HasSuffix(c.Fset.Position(site.Pos()).Filename, "_test.go") {
+				continue
+			}
+			if s, r := clockSource(c, site.Common().Args[idx], precision, depth+1); s != "" {
+				src = joinSources(src, s)
+				rounded = rounded && r
+			}
+		}
+		if src == "" {
+			return "", false
+		}
+		return src, rounded
 	case *ssa.Phi:
 		for _, e := range x.Edges {
-			if s, r := clockSource(e, precision, depth+1); s != "" {
+			if s, r := clockSource(c, e, precision, depth+1); s != "" {
 				return s, r
 			}
 		}
 	case *ssa.UnOp:
 		if x.Op == token.MUL {
 			if s := singleStore(x.X); s != nil {
-				return clockSource(s, precision, depth+1)
+				return clockSource(c, s, precision, depth+1)
 			}
 		}
 	}
@@ -537,4 +684,67 @@ func ruleR05f(c *Ctx, rule string) {
 			c.Info["hashed_log_fields"] = cov
 		}
 	}
+}
+
+// keyedTable: a package-level array/slice/map literal whose elements are keyed by named constants
+// (`var names = [...]string{SetMetadataLogType: "SET_METADATA", …}`).
+type keyedTable struct {
+	obj     *types.Var
+	entries map[string]ast.Expr // constant name -> element expression
+}
+
+// keyedTablesUsed: the keyed tables of the package that the given body refers to.
+func keyedTablesUsed(c *Ctx, p *packages.Package, body *ast.BlockStmt) []keyedTable {
+	var out []keyedTable
+	seen := map[*types.Var]bool{}
+	ast.Inspect(body, func(n ast.Node) bool {
+		id, ok := n.(*ast.Ident)
+		if !ok {
+			return true
+		}
+		v, ok := p.TypesInfo.Uses[id].(*types.Var)
+		if !ok || v.Pkg() == nil || v.Parent() != v.Pkg().Scope() || seen[v] {
+			return true
+		}
+		seen[v] = true
+		// its declaration
+		for _, f := range p.Syntax {
+			for _, d := range f.Decls {
+				gd, ok := d.(*ast.GenDecl)
+				if !ok || gd.Tok != token.VAR {
+					continue
+				}
+				for _, sp := range gd.Specs {
+					vs, ok := sp.(*ast.ValueSpec)
+					if !ok {
+						continue
+					}
+					for i, nm := range vs.Names {
+						if p.TypesInfo.Defs[nm] != v || i >= len(vs.Values) {
+							continue
+						}
+						cl, ok := vs.Values[i].(*ast.CompositeLit)
+						if !ok {
+							continue
+						}
+						tab := keyedTable{obj: v, entries: map[string]ast.Expr{}}
+						for _, el := range cl.Elts {
+							kv, ok := el.(*ast.KeyValueExpr)
+							if !ok {
+								continue
+							}
+							if k := constObj(p, kv.Key); k != nil {
+								tab.entries[k.Name()] = kv.Value
+							}
+						}
+						if len(tab.entries) > 0 {
+							out = append(out, tab)
+						}
+					}
+				}
+			}
+		}
+		return true
+	})
+	return out
 }
